@@ -1,5 +1,6 @@
 import GrafeoModel.Proofs.Conc2Lemmas
 import GrafeoModel.Model.EdgeConc
+import GrafeoModel.Proofs.LpgLemmas
 
 /-!
 # C20 — concurrent use is safe: the transaction manager (stream `conc2 tx`)
@@ -189,35 +190,284 @@ end Grafeo.TxConc
 /-!
 ## Edge operations (stream `conc2 edge`)
 
-`Model/EdgeConc.lean`. Statements proved here are witnesses and sequential facts; the
-linearizability of programs in which no `delete_edge` names an edge still under creation is
-checked by the correspondence stream only (no theorem yet).
+`Model/EdgeConc.lean` (repaired `mark_deleted`, `fix:` af85f62; the pinned one is `Old.*`).
+
+* `c20_edge_results_linearizable` (full) — for every program of create_edge / delete_edge /
+  delete_node, any number of threads, every interleaving of their critical sections, at every
+  point of the run: the edge table and the node table are those of the sequential replay of the
+  linearisation, every answer is the replay's answer, and each thread has received (or is about to
+  receive, `pendOut`) exactly its own answers in program order;
+* `c20_edge_quiescent_agree_partial` — agreement of forward adjacency, backward adjacency and edge
+  table at quiescence, for every forced schedule prefix of three fixed racing programs (`decide`):
+  the general statement (invariant over pending adds / pending tombstones) is not proved;
+* `c20_edge_mark_add_commute`, `c20_edge_marked_invisible` (full, store level) — why the repair
+  works: a tombstone and its insertion commute on the reader's view, with or without a list;
+* `c20_edge_delete_during_create_torn` — regression witness about `Old`.
 -/
 namespace Grafeo.EdgeConc
 open Grafeo.Lpg
 
-/-- W (defect of the code): `delete_edge(e)` running between the edge-table section and the
-forward-adjacency section of the `create_edge` that makes `e`, with endpoints that have no
-adjacency list yet. The delete answers `true` and marks the chain; `mark_deleted` finds no list and
-does nothing; the create then adds live entries: at quiescence the edge table has no live edge
-while `edges_from(0)` and the backward list of node 1 still contain edge 0. No sequential order of
-the two calls gives that state (the replay of the linearisation has empty adjacency views). -/
+inductive Reach (n0 : Nat) (progs : List (List COp)) : State → Prop
+  | init : Reach n0 progs (init n0 progs)
+  | step (st : State) (i : Nat) : Reach n0 progs st → Reach n0 progs (step st i)
+
+theorem reach_runSched {n0 : Nat} {progs : List (List COp)} (sched : List Nat) :
+    ∀ st, Reach n0 progs st → Reach n0 progs (runSched st sched) := by
+  induction sched with
+  | nil => intro st h; exact h
+  | cons i rest ih => intro st h; exact ih _ (Reach.step st i h)
+
+theorem reach_finishThread {n0 : Nat} {progs : List (List COp)} (fuel : Nat) :
+    ∀ st i, Reach n0 progs st → Reach n0 progs (finishThread fuel st i) := by
+  induction fuel with
+  | zero => intro st i h; exact h
+  | succ n ih =>
+    intro st i h
+    unfold finishThread
+    split
+    · exact h
+    · split
+      · exact h
+      · exact ih _ _ (Reach.step st i h)
+
+theorem reach_foldl_finish {n0 : Nat} {progs : List (List COp)} (fuel : Nat) (l : List Nat) :
+    ∀ st, Reach n0 progs st → Reach n0 progs (l.foldl (finishThread fuel) st) := by
+  induction l with
+  | nil => intro st h; exact h
+  | cons i rest ih => intro st h; exact ih _ (reach_finishThread fuel st i h)
+
+/-- the states the driver computes are reachable states -/
+theorem c20_edge_reach_run (n0 : Nat) (progs : List (List COp)) (sched : List Nat) (fuel : Nat) :
+    Reach n0 progs (finishAll fuel (runSched (init n0 progs) sched)) :=
+  reach_foldl_finish fuel _ _ (reach_runSched sched _ Reach.init)
+
+/-- the answer a thread is about to record: its call has taken effect, later sections remain -/
+def pendOut (t : Thread) : List Nat :=
+  match t.pc with
+  | .crFwd id _ _ => [id]
+  | .crBwd id _ _ => [id]
+  | .deFwd _ _ _ => [1]
+  | .deBwd _ _ => [1]
+  | .deProps => [1]
+  | _ => []
+
+def myOuts (i : Nat) (log : List Ev) : List Nat := (log.filter (fun ev => ev.thread == i)).map (·.out)
+
+structure Lin (n0 : Nat) (st : State) : Prop where
+  edges : (replay (initStore n0) st.log).1.edges = st.store.edges
+  nodes : (replay (initStore n0) st.log).1.nodes = st.store.nodes
+  outs : (replay (initStore n0) st.log).2 = st.log.map (·.out)
+  res : ∀ (i : Nat) (t : Thread), st.threads[i]? = some t → t.results ++ pendOut t = myOuts i st.log
+
+theorem replay_append (l : List Ev) (ev : Ev) : ∀ s,
+    replay s (l ++ [ev]) = ((rstep (replay s l).1 ev).1, (replay s l).2 ++ [(rstep (replay s l).1 ev).2]) := by
+  induction l with
+  | nil => intro s; simp [replay]
+  | cons x rest ih => intro s; simp [replay, ih]
+
+/-- what one step of a thread does to the log, the two tables and the thread's answers -/
+theorem stepThread_spec (i : Nat) (s : Store) (log : List Ev) (t : Thread) :
+    ((stepThread i s log t).2.1 = log ∧ (stepThread i s log t).1.edges = s.edges ∧
+      (stepThread i s log t).1.nodes = s.nodes ∧
+      (stepThread i s log t).2.2.results ++ pendOut (stepThread i s log t).2.2 = t.results ++ pendOut t) ∨
+    (∃ ev : Ev, ev.thread = i ∧ (stepThread i s log t).2.1 = log ++ [ev] ∧
+      (∀ s' : Store, s'.edges = s.edges → s'.nodes = s.nodes →
+        (rstep s' ev).1.edges = (stepThread i s log t).1.edges ∧
+        (rstep s' ev).1.nodes = (stepThread i s log t).1.nodes ∧ (rstep s' ev).2 = ev.out) ∧
+      (stepThread i s log t).2.2.results ++ pendOut (stepThread i s log t).2.2 =
+        t.results ++ pendOut t ++ [ev.out]) := by
+  unfold stepThread
+  split
+  · next hpc =>
+    split
+    · left; simp
+    · left; simp [pendOut, hpc]
+    · left; simp [pendOut, hpc]
+    · left; simp [pendOut, hpc]
+  · next id src dst hpc =>
+    right
+    refine ⟨⟨i, .create src dst, id⟩, rfl, rfl, ?_, by simp [pendOut, hpc]⟩
+    intro s' he hn
+    simp [rstep, seqCreate, he, hn]
+  · next id src dst hpc => left; simp [pendOut, hpc]
+  · next id src dst hpc => left; simp [pendOut, hpc, done]
+  · next e hpc =>
+    right
+    split
+    · next hg =>
+      refine ⟨⟨i, .delEdge e, 0⟩, rfl, rfl, ?_, by simp [pendOut, hpc, done]⟩
+      intro s' he hn
+      simp [rstep, seqDelEdge, he, hn, hg]
+    · next r hg =>
+      split
+      · next hd =>
+        refine ⟨⟨i, .delEdge e, 0⟩, rfl, rfl, ?_, by simp [pendOut, hpc, done]⟩
+        intro s' he hn
+        simp [rstep, seqDelEdge, he, hn, hg, hd]
+      · next hd =>
+        refine ⟨⟨i, .delEdge e, 1⟩, rfl, rfl, ?_, by simp [pendOut, hpc]⟩
+        intro s' he hn
+        simp [rstep, seqDelEdge, he, hn, hg, hd]
+  · next e src dst hpc => left; simp [pendOut, hpc]
+  · next e dst hpc => left; simp [pendOut, hpc]
+  · next hpc => left; simp [pendOut, hpc, done]
+  · next n hpc =>
+    right
+    split
+    · next hg =>
+      refine ⟨⟨i, .delNode n, 1⟩, rfl, rfl, ?_, by simp [pendOut, hpc, done]⟩
+      intro s' he hn
+      simp [rstep, seqDelNode, he, hn, hg]
+    · next hg =>
+      refine ⟨⟨i, .delNode n, 0⟩, rfl, rfl, ?_, by simp [pendOut, hpc, done]⟩
+      intro s' he hn
+      have : ∀ x, aget s.nodes n = x → x ≠ some true := by intro x hx h; exact hg (hx ▸ h ▸ rfl)
+      simp only [rstep, seqDelNode, hn]
+      first
+        | exact ⟨he, trivial, trivial⟩
+        | (split
+           · next h => exact absurd h (this _ rfl)
+           · simp [he, hn])
+
+theorem lin_init (n0 : Nat) (progs : List (List COp)) : Lin n0 (init n0 progs) := by
+  refine ⟨rfl, rfl, rfl, ?_⟩
+  intro i t h
+  simp only [init, List.getElem?_map] at h
+  cases hp : progs[i]? with
+  | none => rw [hp] at h; cases h
+  | some p => rw [hp] at h; cases h; rfl
+
+theorem lin_step (n0 : Nat) (st : State) (i : Nat) (h : Lin n0 st) : Lin n0 (step st i) := by
+  unfold step
+  split
+  · exact h
+  · next t ht =>
+    have hi : i < st.threads.length := by
+      rcases Nat.lt_or_ge i st.threads.length with h' | h'
+      · exact h'
+      · rw [List.getElem?_eq_none h'] at ht; cases ht
+    rcases stepThread_spec i st.store st.log t with ⟨h1, h2, h3, h4⟩ | ⟨ev, h0, h1, h2, h4⟩
+    · refine ⟨?_, ?_, ?_, ?_⟩
+      · show (replay (initStore n0) (stepThread i st.store st.log t).2.1).1.edges = _
+        rw [h1, h2]; exact h.edges
+      · show (replay (initStore n0) (stepThread i st.store st.log t).2.1).1.nodes = _
+        rw [h1, h3]; exact h.nodes
+      · show (replay (initStore n0) (stepThread i st.store st.log t).2.1).2 = List.map _ (stepThread i st.store st.log t).2.1
+        rw [h1]; exact h.outs
+      · intro j u hj
+        show u.results ++ pendOut u = myOuts j (stepThread i st.store st.log t).2.1
+        rw [h1]
+        rcases Grafeo.TxConc.get_set_cases _ _ _ _ _ hi hj with ⟨hij, hu⟩ | ⟨hij, hj'⟩
+        · subst hij; rw [hu, h4]; exact h.res i t ht
+        · exact h.res j u hj'
+    · have hr := h2 (replay (initStore n0) st.log).1 h.edges h.nodes
+      refine ⟨?_, ?_, ?_, ?_⟩
+      · show (replay (initStore n0) (stepThread i st.store st.log t).2.1).1.edges = _
+        rw [h1, replay_append]; exact hr.1
+      · show (replay (initStore n0) (stepThread i st.store st.log t).2.1).1.nodes = _
+        rw [h1, replay_append]; exact hr.2.1
+      · show (replay (initStore n0) (stepThread i st.store st.log t).2.1).2 = List.map _ (stepThread i st.store st.log t).2.1
+        rw [h1, replay_append]
+        simp only [List.map_append, List.map_cons, List.map_nil, h.outs, hr.2.2]
+      · intro j u hj
+        show u.results ++ pendOut u = myOuts j (stepThread i st.store st.log t).2.1
+        rw [h1]
+        rcases Grafeo.TxConc.get_set_cases _ _ _ _ _ hi hj with ⟨hij, hu⟩ | ⟨hij, hj'⟩
+        · subst hij
+          rw [hu, h4, h.res _ t ht]
+          simp [myOuts, List.filter_append, h0]
+        · have : (ev.thread == j) = false := by simp [h0, hij]
+          simp only [myOuts, List.filter_append, List.filter_cons, List.filter_nil, this]
+          simpa [myOuts] using h.res j u hj'
+
+theorem lin_reach {n0 : Nat} {progs : List (List COp)} {st : State} (h : Reach n0 progs st) : Lin n0 st := by
+  induction h with
+  | init => exact lin_init n0 progs
+  | step st i _ ih => exact lin_step n0 st i ih
+
+/-- F: results are linearizable for every interleaving of every program: at every reachable
+state the edge table and the node table (what every answer is computed from) are those of the
+sequential replay of the linearisation, the answers are the replay's answers, and every thread
+holds its own answers in program order (the last one possibly still to be recorded). -/
+theorem c20_edge_results_linearizable {n0 : Nat} {progs : List (List COp)} {st : State}
+    (h : Reach n0 progs st) :
+    (replay (initStore n0) st.log).1.edges = st.store.edges ∧
+    (replay (initStore n0) st.log).1.nodes = st.store.nodes ∧
+    (replay (initStore n0) st.log).2 = st.log.map (·.out) ∧
+    ∀ (i : Nat) (t : Thread), st.threads[i]? = some t → t.results ++ pendOut t = myOuts i st.log :=
+  ⟨(lin_reach h).edges, (lin_reach h).nodes, (lin_reach h).outs, (lin_reach h).res⟩
+
+/-- F (why the repair works): a tombstone and the insertion it belongs to commute on what a
+reader sees, in whichever order the two sections run, for every node and whether or not the
+node had a list. -/
+theorem c20_edge_mark_add_commute (a : AList Adj) (k o e k' : Nat) :
+    adjLive (adjMark (adjAdd a k o e) k e) k' = adjLive (adjAdd (adjMark a k e) k o e) k' := by
+  unfold adjLive adjMark adjAdd
+  simp only [aget_aset]
+  by_cases h : k = k'
+  · subst h
+    simp only [if_true, Option.getD_some]
+  · have h' : ¬ k' = k := fun x => h x.symm
+    simp [h']
+
+/-- F: once the tombstone is in, the edge is invisible in that list, before and after the
+insertion arrives. -/
+theorem c20_edge_marked_invisible (a : AList Adj) (k o e : Nat) :
+    (∀ p ∈ adjLive (adjMark a k e) k, p.2 ≠ e) ∧
+    (∀ p ∈ adjLive (adjAdd (adjMark a k e) k o e) k, p.2 ≠ e) := by
+  unfold adjLive adjMark adjAdd
+  simp only [aget_aset, if_true, Option.getD_some]
+  constructor
+  · intro p hp
+    simp only [List.mem_filter] at hp
+    intro h; subst h
+    by_cases hc : ((aget a k).getD {}).deleted.contains p.2 = true <;> simp_all
+  · intro p hp
+    simp only [List.mem_filter] at hp
+    intro h; subst h
+    by_cases hc : ((aget a k).getD {}).deleted.contains p.2 = true <;> simp_all
+
+/-- every schedule of length `n` over `k` threads -/
+def allScheds (k : Nat) : Nat → List (List Nat)
+  | 0 => [[]]
+  | n + 1 => (allScheds k n).flatMap (fun s => (List.range k).map (fun i => i :: s))
+
+/-- does every schedule of `progs` (a prefix of `len` forced steps, then run to completion) end in
+a store whose three structures agree and whose reader's view is the sequential replay's? -/
+def allAgree (n0 : Nat) (progs : List (List COp)) (len fuel : Nat) : Bool :=
+  (allScheds progs.length len).all (fun sched =>
+    let st := finishAll fuel (runSched (init n0 progs) sched)
+    consistent st.store && st.threads.all (·.finished) &&
+    decide (view (replay (initStore n0) st.log).1 (n0 + 1) = view st.store (n0 + 1)))
+
+/-- partial (bounded: three fixed programs; every forced schedule prefix of the stated length,
+then completion in thread order — for the first program that is every interleaving, its two calls
+have nine sections): the repaired code keeps forward adjacency, backward adjacency and edge table in agreement at quiescence, with
+the reader's view of the sequential replay — delete_edge racing the create of the same edge on
+fresh endpoints (the schedule that tore the pinned code is among them), two deleters racing one
+create, delete_node racing a create. Missing for the full statement: the invariant over pending
+adjacency inserts and pending tombstones for arbitrary programs. -/
+theorem c20_edge_quiescent_agree_partial :
+    allAgree 2 [[.create 0 1], [.delEdge 0]] 8 12 = true ∧
+    allAgree 1 [[.create 0 0], [.delEdge 0], [.delEdge 0]] 5 12 = true ∧
+    allAgree 2 [[.create 0 1, .delEdge 0], [.delNode 0, .create 1 0]] 7 14 = true := by
+  decide +kernel
+
+/-- W (regression, pinned code `Old`): `delete_edge(e)` between the edge-table section and the
+forward-adjacency section of the `create_edge` that makes `e`, on endpoints without adjacency
+lists: `mark_deleted` found no list and did nothing, the create then added live entries — the edge
+table has no live edge while both adjacency views still contain edge 0, a state no sequential
+order of the two calls gives. The repaired model ends consistent on the same schedule. -/
 theorem c20_edge_delete_during_create_torn :
-    let st := finishAll 12 (runSched (init 2 [[.create 0 1], [.delEdge 0]]) [0, 0, 1, 1, 1, 1, 1])
+    let st := Old.finishAll 12 (Old.runSched (init 2 [[.create 0 1], [.delEdge 0]]) [0, 0, 1, 1, 1, 1, 1])
+    let st' := finishAll 12 (runSched (init 2 [[.create 0 1], [.delEdge 0]]) [0, 0, 1, 1, 1, 1, 1])
     st.threads.map (·.results) = [[0], [1]] ∧
     st.log = [⟨0, .create 0 1, 0⟩, ⟨1, .delEdge 0, 1⟩] ∧
     liveEdges st.store = [] ∧ adjLive st.store.fwd 0 = [(1, 0)] ∧ adjLive st.store.bwd 1 = [(0, 0)] ∧
     consistent st.store = false ∧
-    view (replay (initStore 2) st.log).1 3 ≠ view st.store 3 ∧
-    consistent (replay (initStore 2) st.log).1 = true := by
-  decide
-
-/-- W: the same race when the endpoints already have adjacency lists is harmless — the deleted
-set filters the entry that arrives later — which is why the defect needs fresh endpoints. -/
-theorem c20_edge_delete_during_create_with_lists_ok :
-    let st := finishAll 18 (runSched (init 2 [[.create 0 1, .create 0 1], [.delEdge 1]]) [0, 0, 0, 0, 0, 0, 1, 1, 1, 1, 1])
-    st.threads.map (·.results) = [[0, 1], [1]] ∧ consistent st.store = true ∧
-    view (replay (initStore 2) st.log).1 3 = view st.store 3 := by
+    view (Old.replay (initStore 2) st.log).1 3 ≠ view st.store 3 ∧
+    consistent st'.store = true ∧ adjLive st'.store.fwd 0 = [] ∧ adjLive st'.store.bwd 1 = [] ∧
+    view (replay (initStore 2) st'.log).1 3 = view st'.store 3 := by
   decide
 
 /-- W: `create_edge` does not look at the node table and `delete_node` does not look at the
@@ -228,14 +478,6 @@ theorem c20_edge_dangling_is_sequential :
     st.threads.map (·.results) = [[0], [1]] ∧ consistent st.store = true ∧
     view (replay (initStore 2) st.log).1 3 = view st.store 3 ∧
     (view st.store 3).nodes = [1] ∧ (view st.store 3).edges = [(0, 0, 1)] := by
-  decide
-
-/-- nonvacuity (sequential reference): a call run in one piece keeps the three structures in agreement
-when it creates an edge with a fresh id on a consistent store whose adjacency holds no entry for
-that id — the shape of every step of `replay` — checked here on the initial stores. -/
-theorem c20_edge_seq_create_delete_consistent :
-    consistent (seqDelEdge (seqCreate (seqCreate (initStore 3) 0 0 1) 1 1 1) 0).1 = true ∧
-    consistent (seqCreate (seqDelEdge (seqCreate (initStore 3) 0 2 2) 0).1 1 2 2) = true := by
   decide
 
 end Grafeo.EdgeConc
